@@ -91,6 +91,16 @@ def patched_pct(case, rec):
         setattr(mod, name, orig)
 
 
+def same_point(p, q):
+    """identity, or value equality (an implementation may hand out a copy of the stored point)"""
+    if p is q:
+        return True
+    try:
+        return list(p) == list(q)
+    except TypeError:
+        return False
+
+
 def base_kind(algo):
     if algo == "PCT":
         return "HCT"
@@ -251,7 +261,7 @@ class WrapMon(Monitor):
             if news or pulls or rews:
                 self.v("C09:learner_activity_after_the_last_phase", news=len(news), pulls=len(pulls), rews=len(rews))
             best, _ = self._gpo_best()
-            if best is not None and not any(self.point is x for x in best):
+            if best is not None and not any(same_point(self.point, x) for x in best):
                 self.v("C09:point_after_last_phase_is_not_the_best_validated", round=i)
             if list(w.V_reward) == self.pre[0]:
                 self.dropped += 1
@@ -376,7 +386,7 @@ class WrapMon(Monitor):
                 # run / once all phases are over, so a mid-round answer is not judged (it must only be harmless)
                 self.obs["mid_round_queries"] += 1
                 return
-            if not any(point is x for x in best):
+            if not any(same_point(point, x) for x in best):
                 self.v("C07:GPO_recommendation_is_not_the_best_validated_point", means=means)
                 self.v("C09:GPO_recommendation_is_not_the_best_validated_point", means=means)
 
